@@ -21,7 +21,8 @@ ufrag extension is ufrag number t, `n` OnCandidate(nil).
     history and must have happened before that callback's stamp (the notifier delivers in order, later).
     The search uses the model restricted to one in-flight `addCandidate` per cycle and no `pubSkip`
     (host-only gathering has one gatherer and no duplicates) — a restriction can only reject more.
-    One pass.  (Until /repo 19c3ca1 the model allowed a cancelled cycle to publish through a hand-off taken
+    One pass; the closure is bounded (`closureFuel` expansions): when it gives up and the configuration set later
+    empties the line is INCONCLUSIVE (`recorded` + `Res.inconclusive`), never rejected.  (Until /repo 19c3ca1 the model allowed a cancelled cycle to publish through a hand-off taken
     after cancellation — DESIGN §7 S5, finding F23 — and a second pass accepted such histories; the model no
     longer has that transition, so a history showing a candidate of a stale generation is REJECTED here,
     `MISMATCH`, in addition to the monitor's clause G1/G2.)
@@ -114,19 +115,23 @@ def internalSucc0 (cbs : List (Option Nat)) (c : Cfg) : List Cfg :=
 def internalSucc (cbs : List (Option Nat)) (c : Cfg) : List Cfg :=
   (internalSucc0 cbs c).map fun n => { n with st := norm n.st }
 
-def closure (cbs : List (Option Nat)) (fuel : Nat) (seen : List Cfg) (work : List Cfg) : List Cfg :=
+/-- closure under unobserved steps (worklist; `fuel` bounds the number of expansions).  The flag is `true` iff the work
+list was emptied (the result IS the closure), `false` iff the search gave up with configurations still unexpanded. -/
+def closure (cbs : List (Option Nat)) (fuel : Nat) (seen : List Cfg) (work : List Cfg) : List Cfg × Bool :=
   match fuel, work with
-  | 0, _ => seen
-  | _, [] => seen
+  | _, [] => (seen, true)
+  | 0, _ => (seen, false)
   | fuel + 1, c :: rest =>
     let (seen, new) := (internalSucc cbs c).foldl
       (fun (acc : List Cfg × List Cfg) n =>
         if acc.1.contains n then acc else (acc.1 ++ [n], acc.2 ++ [n])) (seen, [])
     closure cbs fuel seen (rest ++ new)
 
-def close (cbs : List (Option Nat)) (cs : List Cfg) : List Cfg :=
+def closureFuel : Nat := 20000
+
+def close (cbs : List (Option Nat)) (cs : List Cfg) : List Cfg × Bool :=
   let start := cs.foldl (fun acc c => if acc.contains c then acc else acc ++ [c]) []
-  closure cbs 20000 start start
+  closure cbs closureFuel start start
 
 /-- apply one observed event; `k` = number of callbacks before this event -/
 def observe (k : Nat) (c : Cfg) : GEv → Option Cfg
@@ -152,13 +157,15 @@ def whyEmpty : GEv → String
   | .settle => "idle, but the model still has a running cycle or an undelivered publication"
   | .close => "close twice"
 
-def accept (toks : List String) : String :=
+/-- The model's output and, if the search gave up, why.  `rejected:` only when every closure up to that position was
+complete (fully explored frontier); an empty configuration set after a closure that ran out of fuel is no verdict. -/
+def accept (toks : List String) : String × Option String :=
   match toks.mapM parseTok with
-  | none => "bad-op token"
+  | none => ("bad-op token", none)
   | some evs =>
     let cbs := callbacks evs
-    let rec go (cs : List Cfg) (pos k : Nat) : List GEv → List String → String
-      | [], _ => "recorded"
+    let rec go (cs : List Cfg) (complete : Bool) (pos k : Nat) : List GEv → List String → String × Option String
+      | [], _ => ("recorded", none)
       | ev :: rest, ts =>
         -- `S` is taken while every goroutine is blocked: a `R` that follows it immediately finds the
         -- polled state unchanged (no unobserved step in between)
@@ -166,10 +173,15 @@ def accept (toks : List String) : String :=
           | .state _ true, .restart _ :: _ => true
           | _, _ => false
         let obs := (cs.filterMap (observe k · ev)).map fun n => { n with st := norm n.st }
-        let next := if frozen then obs else close cbs obs
+        let (next, ok) := if frozen then (obs, true) else close cbs obs
+        let complete := complete && ok
         let k' := match ev with | .cand _ => k + 1 | .nil => k + 1 | _ => k
-        if next.isEmpty then s!"rejected:{pos}:{ts.headD "?"}:{whyEmpty ev}" else go next (pos + 1) k' rest (ts.drop 1)
-    go (close cbs [{ st := IceModel.GatherCycle.init }]) 0 0 evs toks
+        if next.isEmpty then
+          if complete then (s!"rejected:{pos}:{ts.headD "?"}:{whyEmpty ev}", none)
+          else ("recorded", some s!"closure over unobserved steps ran out of fuel ({closureFuel} expansions) at or before position {pos} ({ts.headD "?"})")
+        else go next complete (pos + 1) k' rest (ts.drop 1)
+    let (c0, ok0) := close cbs [{ st := IceModel.GatherCycle.init }]
+    go c0 ok0 0 0 evs toks
 
 def monitor (needCand : Bool) (toks : List String) : Option String :=
   match toks.mapM parseTok with
@@ -180,7 +192,9 @@ def line (toks : List String) (_impl : String) : Res :=
   match toks with
   | "hist" :: ifaces :: _scen :: evs =>
     match ifaces.toNat? with
-    | some n => { model := accept evs, monitor := monitor (n ≥ 1) evs, prop := "C11" }
+    | some n =>
+      let (model, inc) := accept evs
+      { model := model, monitor := monitor (n ≥ 1) evs, prop := "C11", inconclusive := inc }
     | none => bad "gathercycle: ifaces"
   | _ => bad "gathercycle: unknown op"
 
